@@ -6,3 +6,5 @@ pub mod mirror;
 pub mod defrag;
 pub mod sweep;
 pub mod targets;
+pub mod defrag_explore;
+pub mod entries;
